@@ -641,6 +641,144 @@ theorem mem_fileRefs {bs : List Binding} {b : Binding} {p : Node} {a : Arg} (hb 
   simp only [List.mem_filterMap, List.mem_flatMap]
   exact ⟨(p, a, true), ⟨b, hb, hr⟩, by simp⟩
 
+/-! ### well-ordered construction from the shape of the call graph -/
+
+theorem wfOps_retains (b s : List Node) (rs : List (Node × Arg)) (k : List BOp)
+    (h : ∀ r ∈ rs, r.1 ∈ b) (hk : wfOps b s k = true) :
+    wfOps b s ((rs.map fun r => BOp.retain r.1 r.2) ++ k) = true := by
+  induction rs with
+  | nil => simpa using hk
+  | cons r rest ih =>
+    simp only [List.map, List.cons_append, wfOps, Bool.and_eq_true, List.contains_eq_mem, decide_eq_true_eq]
+    exact ⟨h r List.mem_cons_self, ih (fun x hx => h x (List.mem_cons_of_mem _ hx))⟩
+
+theorem all_built {b : List Node} {refs : List (Node × Arg)} (h : ∀ r ∈ refs, r.1 ∈ b) :
+    (refs.all fun x => b.contains x.1) = true := by
+  rw [List.all_eq_true]
+  intro x hx
+  simpa using h x hx
+
+theorem allIn_iff {b : List Node} {refs : List (Node × Arg)} : allIn b refs = true ↔ ∀ r ∈ refs, r.1 ∈ b := by
+  unfold allIn
+  rw [List.all_eq_true]
+  constructor
+  · intro h r hr; simpa using h r hr
+  · intro h r hr; simpa using h r hr
+
+theorem wfOps_attach_none (b s : List Node) (refs : List (Node × Arg)) (r : List BOp) :
+    wfOps b s (.attach none refs :: r) = ((refs.all fun x => b.contains x.1) && wfOps b s r) := by
+  simp [wfOps]
+
+theorem wfOps_attach_some (b s : List Node) (n : Node) (refs : List (Node × Arg)) (r : List BOp) :
+    wfOps b s (.attach (some n) refs :: r) =
+      (!s.contains n && (refs.all fun x => b.contains x.1) && wfOps b (n :: s) r) := by
+  simp [wfOps]
+
+theorem wfOps_forks (b s : List Node) (p : Node) (r : List BOp) :
+    wfOps b s (.forks p :: r) = (!b.contains p && wfOps (p :: b) s r) := by
+  simp [wfOps]
+
+/-- a scoped tree is constructed in a well-ordered way, whatever well-ordered steps follow -/
+theorem scoped_wf {b a : List Node} {tr : PTree} (sc : Scoped b tr a) :
+    ∀ (s : List Node) (k : List BOp), (∀ x ∈ s, x ∈ b) →
+      (∀ s', (∀ x ∈ s', x ∈ a) → wfOps a s' k = true) → wfOps b s (opsOf tr ++ k) = true := by
+  induction sc with
+  | nil => intro s k hs hk; simpa [opsOf] using hk s hs
+  | @stage b a id ins ret rest hid hrefs hret _ ih =>
+    intro s k hs hk
+    have hns : id ∉ s := fun h => hid (hs id h)
+    have e : opsOf (.stage id ins ret rest) ++ k =
+        .attach (some id) (fileRefs ins) :: .forks id ::
+          ((ret.map fun r => BOp.retain r.1 r.2) ++ (opsOf rest ++ k)) := by
+      simp [opsOf, List.append_assoc]
+    rw [e, wfOps_attach_some, wfOps_forks]
+    have h3 : wfOps (id :: b) (id :: s) ((ret.map fun r => BOp.retain r.1 r.2) ++ (opsOf rest ++ k)) = true := by
+      apply wfOps_retains _ _ _ _ hret
+      apply ih (id :: s) k
+      · intro x hx
+        rcases List.mem_cons.mp hx with rfl | hx
+        · exact List.mem_cons_self
+        · exact List.mem_cons_of_mem _ (hs x hx)
+      · exact hk
+    have h1 : s.contains id = false := by simpa using hns
+    have h2 : b.contains id = false := by simpa using hid
+    simp [h1, h2, all_built hrefs, h3]
+    exact ⟨⟨hns, fun x y h => hrefs (x, y) h⟩, hid⟩
+  | @pipe b b1 a id top ins ch ret rd rest hins _ hretb hid hrd _ ihc ihr =>
+    intro s k hs hk
+    have tail : ∀ s1, (∀ x ∈ s1, x ∈ b1) →
+        wfOps b1 s1 ((if top then [BOp.attach none (fileRefs ret)] else []) ++
+          (.forks id :: ((rd.map fun r => BOp.retain r.1 r.2) ++ (opsOf rest ++ k)))) = true := by
+      intro s1 hs1
+      have h2 : wfOps b1 s1 (.forks id :: ((rd.map fun r => BOp.retain r.1 r.2) ++ (opsOf rest ++ k))) = true := by
+        rw [wfOps_forks]
+        have h3 : wfOps (id :: b1) s1 ((rd.map fun r => BOp.retain r.1 r.2) ++ (opsOf rest ++ k)) = true := by
+          apply wfOps_retains _ _ _ _ hrd
+          apply ihr s1 k
+          · intro x hx; exact List.mem_cons_of_mem _ (hs1 x hx)
+          · exact hk
+        have h4 : b1.contains id = false := by simpa using hid
+        simp [h4, h3]
+        exact hid
+      cases top with
+      | false => simpa using h2
+      | true =>
+        simp only [if_true, List.singleton_append]
+        rw [wfOps_attach_none]
+        simp [all_built (hretb rfl), h2]
+        exact fun x y h => hretb rfl (x, y) h
+    have body := ihc s _ hs tail
+    have e : opsOf (.pipe id top ins ch ret rd rest) ++ k =
+        (if top then [BOp.attach none (fileRefs ins)] else []) ++ (opsOf ch ++
+          ((if top then [BOp.attach none (fileRefs ret)] else []) ++
+            (.forks id :: ((rd.map fun r => BOp.retain r.1 r.2) ++ (opsOf rest ++ k))))) := by
+      simp [opsOf, List.append_assoc]
+    rw [e]
+    cases top with
+    | false => simpa using body
+    | true =>
+      simp only [if_true, List.singleton_append]
+      rw [wfOps_attach_none]
+      have body' : wfOps b s (opsOf ch ++ (BOp.attach none (fileRefs ret) ::
+          .forks id :: ((rd.map fun r => BOp.retain r.1 r.2) ++ (opsOf rest ++ k)))) = true := by
+        simpa using body
+      simp [all_built (hins rfl), body']
+      exact fun x y h => hins rfl (x, y) h
+
+/-- **the shape of the call graph gives the well-ordered construction** -/
+theorem wfOps_of_scoped {tr : PTree} {a : List Node} (sc : Scoped [] tr a) : wfOps [] [] (opsOf tr) = true := by
+  have := scoped_wf sc [] [] (fun x hx => by cases hx) (fun _ _ => rfl)
+  simpa using this
+
+theorem scopedB_sound : ∀ (tr : PTree) (b a : List Node), scopedB b tr = some a → Scoped b tr a := by
+  intro tr
+  induction tr with
+  | nil => intro b a h; simp [scopedB] at h; subst h; exact .nil
+  | stage id ins ret rest ih =>
+    intro b a h
+    simp only [scopedB] at h
+    split at h
+    · rename_i hc
+      simp only [Bool.and_eq_true, Bool.not_eq_true', List.contains_eq_mem, decide_eq_false_iff_not] at hc
+      exact .stage hc.1.1 (allIn_iff.mp hc.1.2) (allIn_iff.mp hc.2) (ih _ _ h)
+    · cases h
+  | pipe id top ins ch ret rd rest ihc ihr =>
+    intro b a h
+    simp only [scopedB] at h
+    split at h
+    · rename_i h1
+      split at h
+      · cases h
+      · rename_i b1 hb1
+        split at h
+        · rename_i h2
+          simp only [Bool.and_eq_true, Bool.not_eq_true', List.contains_eq_mem, decide_eq_false_iff_not] at h2
+          refine .pipe ?_ (ihc _ _ hb1) ?_ h2.1.2 (allIn_iff.mp h2.2) (ihr _ _ h)
+          · intro ht; subst ht; exact allIn_iff.mp (by simpa using h1)
+          · intro ht; subst ht; exact allIn_iff.mp (by simpa using h2.1.1)
+        · cases h
+    · cases h
+
 /-! ### `cloneFork` -/
 
 theorem map_id' {α : Type} (l : List α) : l.map id = l := by simp
